@@ -159,6 +159,35 @@ func runPairing(c *mon.Ctx, p *pairings.Pairing) {
 		}
 		cases = append(cases, tc{sa2, sb2, fmt.Sprintf("k%d/same-G2-point", k)})
 	}
+	// large batches: products of many pairs go through the same loops, but an implementation that works in blocks
+	// (of 64 pairs, say) has its own code for the last partial block; small scalars keep the setup cheap
+	bigKs := []int{17, 64, 65, 70}
+	if c.Thorough() {
+		bigKs = append(bigKs, 127, 128, 129, 200)
+	}
+	for _, k := range bigKs {
+		as, bs := make([]*big.Int, k), make([]*big.Int, k)
+		s := new(big.Int)
+		for i := range as {
+			as[i], bs[i] = big.NewInt(int64(rng.Intn(1<<20)+1)), big.NewInt(int64(rng.Intn(1<<20)+1))
+			if i < k-1 {
+				s.Add(s, new(big.Int).Mul(as[i], bs[i]))
+			}
+		}
+		cases = append(cases, tc{append([]*big.Int(nil), as...), append([]*big.Int(nil), bs...), fmt.Sprintf("k%d/random", k)})
+		zs, zb := append([]*big.Int(nil), as...), append([]*big.Int(nil), bs...)
+		zs[k-1], zb[k-1] = big.NewInt(1), new(big.Int).Mod(new(big.Int).Neg(s), r)
+		cases = append(cases, tc{zs, zb, fmt.Sprintf("k%d/sum-zero", k)})
+		// all but the last pairs cancel: only a verifier that looks at the last pair rejects
+		fa, fb := append([]*big.Int(nil), zs...), append([]*big.Int(nil), zb...)
+		s2 := new(big.Int)
+		for i := 0; i < k-2; i++ {
+			s2.Add(s2, new(big.Int).Mul(fa[i], fb[i]))
+		}
+		fa[k-2], fb[k-2] = big.NewInt(1), new(big.Int).Mod(new(big.Int).Neg(s2), r)
+		fa[k-1], fb[k-1] = big.NewInt(2), big.NewInt(3)
+		cases = append(cases, tc{fa, fb, fmt.Sprintf("k%d/all-but-last-cancel", k)})
+	}
 	for ci, t := range cases {
 		want := expect(t.as, t.bs)
 		wantCheck := F.IsOne(want)
